@@ -220,6 +220,41 @@ def _run(V, work, tier):
                           {"template": P.render(t), "real": have, "expected": want})
         if i % 150 == 2:
             V.sample({"kind": kind, "program": src[-400:], "model_probes": len(me["probes"])})
+    # ---- a macro that works on its argument list IN PLACE must not be able to change the form it was given ----------
+    # (the Machine's data is immutable, so this relation is evaluated between real runs: the call, the evaluation of the
+    # form, and the evaluation of what macroexpand returns must agree, the form must read the same afterwards, and one
+    # step of macroexpand-1 must agree with macroexpand for a macro whose expansion is not a macro call)
+    MUT = "(defmacro fts (&rest xs) (let ((f (first xs))) (stable-sort < xs) (quasiquote (list (unquote f) (unquote-splicing xs)))))\n"
+    # (the head must be the bare symbol: a symbol taken out of a quoted list is one, (quote fts) evaluated is not)
+    builders = {"quasiquote": "(quasiquote (fts 3 1 2))", "cons": "(cons (car '(fts)) (list 3 1 2))", "concat": "(concat 'list '(fts) (list 3 1) (list 2))",
+                "literal": "'(fts 3 1 2)", "map": "(map 'list identity '(fts 3 1 2))", "unquoted": "(quasiquote (fts (unquote (+ 1 2)) 1 2))"}
+    mrecs = [{"id": "direct", "seq": [MUT + "(probe 'r (fts 3 1 2))"], "cfg": {}}]
+    for bn, b in builders.items():
+        mrecs.append({"id": "eval/" + bn, "seq": [MUT + "(set 'form %s)\n(probe 'r (eval form))" % b], "cfg": {}})
+        mrecs.append({"id": "expand/" + bn, "seq": [MUT + "(set 'form %s)\n(probe 'e (macroexpand form))\n(probe 'after form)\n(probe 'r (eval form))\n(probe 'e1 (macroexpand-1 form))\n(probe 'e2 (macroexpand form))\n(probe 'r2 (eval (macroexpand form)))" % b], "cfg": {}})
+    mres = {r["id"]: r["runs"][0]["evals"][0] for r in driver_json(binary, ["run"], mrecs)}
+
+    def tagged(ev, name):
+        for p in ev.get("probes") or []:
+            if p["tag"] and p["tag"][0].get("s") == name:
+                return json.dumps(p["tag"][1:], sort_keys=True)
+        return None
+    want_r = tagged(mres["direct"], "r")
+    if want_r is None:
+        raise MachineryError("the mutating-macro program did not run: %s" % json.dumps(mres["direct"])[:300])
+    for bn in builders:
+        a, b = mres["eval/" + bn], mres["expand/" + bn]
+        fresh_form = tagged(driver_json(binary, ["run"], [{"id": "f", "seq": [MUT + "(probe 'after %s)" % builders[bn]], "cfg": {}}])[0]["runs"][0]["evals"][0], "after")
+        checks = [("evaluating the form differs from the call", tagged(a, "r"), want_r),
+                  ("evaluating the form after macroexpand differs from the call", tagged(b, "r"), want_r),
+                  ("evaluating macroexpand's result differs from the call", tagged(b, "r2"), want_r),
+                  ("macroexpand changed the form it was given", tagged(b, "after"), fresh_form),
+                  ("macroexpand-1 and macroexpand disagree", tagged(b, "e1"), tagged(b, "e")),
+                  ("macroexpand gives a different expansion the second time", tagged(b, "e2"), tagged(b, "e"))]
+        for what, got, want in checks:
+            if got != want:
+                V.add(None, "%s (form built by %s): %s, expected %s" % (what, bn, got, want), {"src": mrecs[[m["id"] for m in mrecs].index("expand/" + bn)]["seq"][0]})
+    V.coverage["mutating_macro_forms"] = len(builders)
     V.coverage["macro_programs"] = len(CALLS) * 4 + 1
     V.coverage["quasiquote_templates"] = nq
     V.coverage["traces_validated_against_impl"] = len(progs_)
